@@ -33,9 +33,10 @@ class ClassInfo:
                         for d in st.decorator_list]
                 if "setter" in decs:
                     self.methods[st.name + ".setter"] = st
+                    self.decorators[st.name + ".setter"] = decs
                 else:
                     self.methods[st.name] = st
-                self.decorators[st.name] = decs
+                    self.decorators[st.name] = decs
             elif isinstance(st, ast.Assign):
                 for t in st.targets:
                     if isinstance(t, ast.Name):
